@@ -13,8 +13,9 @@ ASSUME = [
     "frames are sent and uploaded during set-up, so that one traffic unit is a frame of constant size and the credits (seeded in "
     "units) reach zero exactly where the model's do; a session-closing notice is smaller than one unit",
     "top-up, set-to-zero, expiry change and deletion are single manager calls made between the steps of the other goroutines",
-    "traffic that crosses the pool after the final collection of a terminated user is not charged (the statement claims exactness "
-    "only while the user stays active)",
+    "usage contained in a completed upload must be charged exactly once, also by the upload that terminates the user; only what "
+    "crosses the pool after the final collection of a terminated record (incl. the closing notices of closeAllSessions), and what is "
+    "uploaded for a deleted user, is not charged",
     "all users are limited users; rates are high enough for the token buckets never to delay",
     "exhaustive for <= 2 users x 2 sessions, <= 3 traffic units, two overlapping upload rounds, one reap of a session (including the "
     "last), one admin change; TLC -simulate beyond",
